@@ -132,6 +132,12 @@ pub fn corpus(out: &mut Out, prop: &str) {
         sc(0, true, zadd("z", vec![(1.0, SDS::new(vec![0xff]))], false)),
         sc(0, true, Command::ZRange(k("z"), 0, -1, false)),
     ]);
+    run_scripted(out, prop, "lmove-same-key-drops-ttl", vec![
+        sc(0, true, Command::RPush(k("l"), vec![s("a")])),
+        sc(0, true, Command::PExpire { key: k("l"), milliseconds: 5000, nx: false, xx: false, gt: false, lt: false }),
+        sc(0, true, Command::LMove { source: k("l"), dest: k("l"), wherefrom: "LEFT".into(), whereto: "LEFT".into() }),
+        sc(0, true, Command::Pttl(k("l"))),
+    ]);
     run_scripted(out, prop, "setrange-check-order", vec![
         sc(0, true, Command::RPush(k("l"), vec![s("a")])),
         sc(0, true, Command::SetRange(k("l"), 1 << 40, s("x"))),
